@@ -49,6 +49,7 @@ SIG_DANGLING = "dangling-link-listing-raises"
 SIG_MV_SUBTREE = "mv-into-own-subtree-loses-collection"
 SIG_MV_ROOT = "mv-of-root-collection-fails-and-leaves-hardlink"
 SIG_SOFT_BEHIND_EXT = "soft-link-created-behind-external-link"
+SIG_ROOT_PARTIAL = "cp-onto-root-fails-midway-partial-copy"
 
 
 # ------------------------------------------------------------------ natural sort (own reading)
@@ -201,6 +202,8 @@ def oracle_step(d, op, outcome, S0, S1, listing, iscool):
             sig = None
             if kind == "mv" and op["sf"] == op["df"] and not G.comps(op["sp"]):
                 sig = SIG_MV_ROOT
+            if not ok and f == op.get("df") and root_copy_fails_midway(op, S0):
+                sig = SIG_ROOT_PARTIAL
             fails.append(({"rule": "R2 frame: a path outside the destination changed" if ok else "R2 frame: a failed operation changed a path",
                            "file": f, "path": q, "before": _brief(before), "after": _brief(after)}, sig))
 
@@ -274,6 +277,22 @@ def oracle_step(d, op, outcome, S0, S1, listing, iscool):
         elif api_read(d, f, p) != api_expected(op["k"]):
             fails.append(({"rule": "R5 created collection does not read back through cooler.Cooler", "file": f, "path": p}, None))
     return fails
+
+
+def root_copy_fails_midway(op, S0):
+    """input-decided predicate of finding D29: a cross-file copy (cp, or mv which copies across files) without
+    overwrite onto the ROOT of an existing file whose root already has a member named like a member of the
+    source group, while another member of the source sorts before it (members are copied one by one in name
+    order, so the copy fails midway and the earlier members stay)"""
+    if op["op"] not in ("cp", "mv") or op["sf"] == op["df"] or op.get("ow") or G.comps(op["dp"]):
+        return False
+    src = S0["keys"].get((op["sf"], G.pstr(G.comps(op["sp"]))))
+    dst = S0["keys"].get((op["df"], "/"))
+    if not src or not dst:
+        return False
+    src = sorted(src, key=lambda k: k.encode())
+    common = [k for k in src if k in dst]
+    return bool(common) and src.index(common[0]) > 0
 
 
 def _brief(x):
@@ -523,6 +542,8 @@ def corpus():
         # root destination, occupied destinations, cross-file hard link, overwrite
         ("cross-file cp to the root of a new file and again", [c(A, "/c2", 1), c(A, "/c2/y", 2), o("cp", A, "/c2", B, "/"), o("cp", A, "/c2", B, "/")]),
         ("cross-file cp to the root of a file that has /y", [c(A, "/c2", 1), c(A, "/c2/y", 2), c(B, "/y", 3), o("cp", A, "/c2", B, "/")]),
+        # known finding D29: the member-by-member copy onto an occupied root fails midway (bins and /c10 stay in B)
+        ("D29 cross-file cp onto a root that has a member of the same name", [c(A, "/", 1), c(A, "/c10", 2), c(B, "/c2", 3), o("lns", A, "/c10", A, "/c2"), o("cp", A, "/", B, "/")]),
         ("occupied destinations", [c(A, "/c2", 1), c(A, "/c10", 2), o("cp", A, "/c2", A, "/c10"), o("ln", A, "/c2", A, "/c10"), o("lns", A, "/c2", A, "/c10"), o("mv", A, "/c2", A, "/c10")]),
         ("cross-file hard link / overwrite", [c(A, "/c2", 1), c(B, "/c10", 2), o("ln", A, "/c2", B, "/y"), o("ln", A, "/c2", B, "/y", ow=True), o("cp", A, "/c2", B, "/y", ow=True)]),
         ("same-file overwrite", [c(A, "/c2", 1), o("cp", A, "/c2", A, "/c10", ow=True), o("mv", A, "/c2", A, "/c10", ow=True)]),
